@@ -102,6 +102,9 @@ type HopPlan struct {
 
 // Reply is one packet emitted in reaction to a probe.
 type Reply struct {
+	// Var != 0 varies the fields of the outer IP header that identify nothing: IPv4 TOS, ID, DF and TTL;
+	// IPv6 traffic class, flow label and hop limit (derived from the value).
+	Var uint32 `json:"var,omitempty"`
 	// Form: te28|teFull|te4884|teOpt|teRewr|teNat|teCode1|echo|unreach:<code>|synack|rst|rstack|sack|plainack|own
 	Form    string `json:"form"`
 	DelayUs int64  `json:"delayUs"`
